@@ -92,7 +92,7 @@ def _d(seed, label):
     return int.from_bytes(hashlib.sha256(b"c19/%d/%s" % (seed, label.encode())).digest(), "big") % (M.N - 2) + 1
 
 
-OPS = ["sm2_keygen", "sm2_sign", "sm2_sign_ctx", "sm2_decrypt", "sm2_decrypt_bad", "sm2_ecdh", "sm2_import_der", "sm2_import_bad", "sm2_import_mismatch", "pem_key_damaged", "pem_key_damaged",
+OPS = ["sm2_keygen", "sm2_sign", "sm2_sign_ctx", "sm2_decrypt", "sm2_decrypt_bad", "sm2_ecdh", "sm2_import_der", "sm2_import_bad", "sm2_import_mismatch", "pem_key_damaged", "pem_key_damaged", "sm4_stream_dec", "sm4_stream_dec", "sm4_stream_dec", "sm4_stream_dec",
        "cms_open_0", "cms_open_1", "cms_open_2", "cms_open_3", "cms_open_4", "cms_open_5", "cms_open_6", "cms_open_6", "cms_open_7", "tls_ctx_keys", "tls_ctx_keys", "hex_key_bad", "tlcp_cke_badlen", "tlcp_cke_badlen",
        "pkcs8_open", "pkcs8_wrong_password", "sm9_sign", "sm9_decrypt", "sm9_keygen",
        "hs_tlcp", "hs_tls12", "hs_tls13", "hs_tlcp_mutual", "hs_tls12_mutual", "hs_tls13_mutual",
@@ -422,6 +422,63 @@ def ops(case, ctx):
                         secrets["outsider private key"] = M.i2b(od_)
                         r, _o = CL.deenvelop_and_verify(l, msg_, key_in(who[0], M.pub_of(who[0])), who[1])
                     ctx.note("cms-open-scenario-%d-%s" % (scen, "opened" if r == 1 else "refused"))
+                elif op == "sm4_stream_dec":
+                    # streaming decryption (SM4-CBC, SM4-GCM, SM4-CBC / SM4-CTR with SM3-HMAC) of an intact, cut-off, lengthened or altered
+                    # stream, or under another key, in several update calls: key and plaintext must stay off the channels on every path
+                    import props.C05 as A5
+                    sh.reset()
+                    mode = ("cbc", "cbc", "gcm", "cbc_hmac", "ctr_hmac")[seed % 5]
+                    damage = ("none", "cut", "cut", "cut", "flip", "other-key", "lengthened")[(seed >> 3) % 7]
+                    pt = hashlib.shake_128(b"c19 stream pt %d" % seed).digest(20 + 3 * case["n"])
+                    key16 = hashlib.shake_128(b"c19 stream key %d" % seed).digest(16)
+                    key48 = key16 + hashlib.shake_128(b"c19 stream mac key %d" % seed).digest(32)
+                    iv = hashlib.shake_128(b"c19 stream iv %d" % seed).digest(16)
+                    aad = hashlib.shake_128(b"c19 stream aad %d" % seed).digest(seed % 7)
+                    secrets = {"stream plaintext": pt, "sm4 key": key16}
+
+                    def cuts_of(nbytes):
+                        a = sorted({(seed >> 5) % (nbytes + 1), (seed >> 11) % (nbytes + 1), (seed * 7 >> 3) % (nbytes + 1)})
+                        out_, prev = [], 0
+                        for c_ in a + [nbytes]:
+                            out_.append(c_ - prev); prev = c_
+                        return out_
+                    if mode == "cbc":
+                        c = obj("SM4_CBC_CTX")
+                        l.sm4_cbc_encrypt_init(c, Buf.of(key16), Buf.of(iv))
+                        ob = Buf(len(pt) + 32); ol = ctypes.c_size_t(0)
+                        l.sm4_cbc_encrypt_update(c, Buf.of(pt), len(pt), ob, ctypes.byref(ol)); wire = ob.raw(ol.value)
+                        ob = Buf(32); l.sm4_cbc_encrypt_finish(c, ob, ctypes.byref(ol)); wire += ob.raw(ol.value)
+                    elif mode == "gcm":
+                        secrets["gcm key"] = key16
+                        ok_, wire = A5.run_stream(l, "sm4_gcm", "SM4_GCM_CTX", {"key": key16, "taglen": 16}, iv[:12], aad, pt, [len(pt)], True, lambda k_: (Buf.of(k_["key"]), 16))
+                    else:
+                        secrets["hmac key"] = key48[16:]
+                        pre = "sm4_cbc_sm3_hmac" if mode == "cbc_hmac" else "sm4_ctr_sm3_hmac"
+                        ok_, wire = A5.run_stream(l, pre, pre.upper() + "_CTX", key48, iv, aad, pt, [len(pt)], True, lambda k_: (Buf.of(k_),))
+                    k16, k48 = key16, key48
+                    if damage == "cut":
+                        wire = wire[:len(wire) - 1 - (seed >> 7) % min(len(wire) - 1, 40)]
+                    elif damage == "flip":
+                        b_ = bytearray(wire); b_[(seed >> 7) % len(b_)] ^= 1 << (seed & 7); wire = bytes(b_)
+                    elif damage == "lengthened":
+                        wire += hashlib.shake_128(b"c19 extra %d" % seed).digest(1 + seed % 20)
+                    elif damage == "other-key":
+                        k16 = bytes(b ^ 0xA5 for b in key16); k48 = k16 + key48[16:]
+                    parts = cuts_of(len(wire))
+                    if mode == "cbc":
+                        c = obj("SM4_CBC_CTX")
+                        l.sm4_cbc_decrypt_init(c, Buf.of(k16), Buf.of(iv))
+                        off = 0
+                        for p_ in parts:
+                            ob = Buf(p_ + 32); ol = ctypes.c_size_t(0)
+                            l.sm4_cbc_decrypt_update(c, Buf.of(wire[off:off + p_]) if p_ else Buf(1), p_, ob, ctypes.byref(ol)); off += p_
+                        ob = Buf(32); ol = ctypes.c_size_t(0)
+                        r = l.sm4_cbc_decrypt_finish(c, ob, ctypes.byref(ol))
+                    elif mode == "gcm":
+                        r, _o = A5.run_stream(l, "sm4_gcm", "SM4_GCM_CTX", {"key": k16, "taglen": 16}, iv[:12], aad, wire, parts, False, lambda k_: (Buf.of(k_["key"]), 16))
+                    else:
+                        r, _o = A5.run_stream(l, pre, pre.upper() + "_CTX", k48, iv, aad, wire, parts, False, lambda k_: (Buf.of(k_),))
+                    ctx.note("stream-dec/%s/%s/%s" % (mode, damage, "accepted" if r in (1, True, "late") else "refused"))
                 elif op == "tlcp_cke_badlen":
                     # a TLCP client (scripted, vlib/peer12.py) whose ClientKeyExchange wraps a value that is not 48 bytes long under the server's
                     # encryption certificate: the server decrypts it with its private key before it can refuse it
